@@ -63,6 +63,12 @@ func (v *AllScopeVariables) Get(s context.Scope, name string) (value.Value, erro
 	}
 
 	switch name {
+	// The geolocation data is not looked up from addresses, the flag only keeps its value
+	case GEOIP_USE_X_FORWARDED_FOR:
+		if v := lookupOverride(v.ctx, name); v != nil {
+			return v, nil
+		}
+		return v.ctx.GeoIPUseXForwardedFor, nil
 	case BEREQ_IS_CLUSTERING:
 		if v := lookupOverride(v.ctx, name); v != nil {
 			return v, nil
@@ -804,6 +810,18 @@ func (v *AllScopeVariables) Get(s context.Scope, name string) (value.Value, erro
 	case TIME_START:
 		return value.NewTime(v.ctx.RequestStartTime), nil
 	// https://github.com/ysugimoto/falco/issues/427
+	// The version of the cache software is not simulated, returns a tentative value
+	case FASTLY_INFO_VERSION:
+		if v := lookupOverride(v.ctx, name); v != nil {
+			return v, nil
+		}
+		return &value.String{Value: "falco"}, nil
+	// Digest ratio will return fixed value if not override (the scopes also have it on their own)
+	case REQ_DIGEST_RATIO:
+		if v := lookupOverride(v.ctx, name); v != nil {
+			return v, nil
+		}
+		return &value.Float{Value: 0.4}, nil
 	// Fastly has staging environment but we always return false
 	case FASTLY_IS_STAGING:
 		if v := lookupOverride(v.ctx, name); v != nil {
@@ -920,6 +938,11 @@ func (v *AllScopeVariables) Set(s context.Scope, name, operator string, val valu
 		return nil
 	case CLIENT_SESS_TIMEOUT:
 		if err := doAssign(v.ctx.ClientSessTimeout, operator, val); err != nil {
+			return errors.WithStack(err)
+		}
+		return nil
+	case GEOIP_USE_X_FORWARDED_FOR:
+		if err := doAssign(v.ctx.GeoIPUseXForwardedFor, operator, val); err != nil {
 			return errors.WithStack(err)
 		}
 		return nil
